@@ -2584,7 +2584,14 @@ def run(ctx):
         run_case(ctx, case)
 
 
-search = run
+def search(ctx):
+    """failing-input search: the dimensions added last come first (cycles + merge queries, the older format version + exports),
+    then the ordinary mix"""
+    import logging
+    logging.disable(logging.CRITICAL)
+    for i in range(12):
+        run_case(ctx, gen_case(ctx, allow_draw=False, recipe=("ring", "version", "merge")[i % 3]))
+    run(ctx)
 
 
 def replay(ctx, case):
